@@ -192,4 +192,282 @@ theorem exchange_code_grant {hash : Nat → Nat} {w w' : World} {c : TClient} {t
   subst h2
   simp
 
+/-! ## 3. The refresh grant -/
+
+/-- The terms on which a refresh token is redeemable: it is a refresh token of this very client,
+not expired, its account passes `check_oauth2_account_uuid_valid`, its OAuth2 session is on record
+and was not re-issued in a later second than the token (= the token was not rotated, as the code
+measures it), and requested scopes, if any, are among the token's. -/
+structure RefreshTerms (w : World) (c : TClient) (t : Tok) (req : Option (List Nat)) (ct : Nat)
+    (rt : RefreshTok) (e : Entry) (s : Sess) : Prop where
+  isRefresh : t = .refresh c.base.uuid rt
+  unexpired : asSecs ct < rt.exp
+  account : w.acct rt.acct = some e
+  valid : acctValid e rt.sid rt.parent rt.iat ct = true
+  session : lookup e.o2s rt.sid = some s
+  notRotated : ¬ rt.iat < asSecs s.issued
+  narrow : ∀ rs, req = some rs → ∀ x ∈ rs, x ∈ rt.scopes
+
+theorem exchange_refresh_ok_iff (w : World) (c : TClient) (t : Tok) (req : Option (List Nat)) (ct : Nat) :
+    (∃ w' r, exchangeRefresh w c t req ct = (w', .ok r)) ↔ ∃ rt e s, RefreshTerms w c t req ct rt e s := by
+  constructor
+  · rintro ⟨w', r, h⟩
+    unfold exchangeRefresh at h
+    cases t with
+    | access _ _ => simp at h
+    | garbage => simp at h
+    | code _ _ => simp at h
+    | clientAccess _ _ => simp at h
+    | refresh key rt =>
+      simp only at h
+      by_cases hk : key = c.base.uuid
+      · by_cases hx : refreshExpired rt.exp (asSecs ct) = true
+        · simp [hk, hx] at h
+        · cases ha : w.acct rt.acct with
+          | none => simp [hk, hx, ha] at h
+          | some e =>
+            cases hv : acctValid e rt.sid rt.parent rt.iat ct with
+            | false => simp [hk, hx, ha, hv] at h
+            | true =>
+              cases hs : lookup e.o2s rt.sid with
+              | none => simp [hk, hx, ha, hv, hs] at h
+              | some s =>
+                by_cases hr : refreshReuse rt.iat (asSecs s.issued) = true
+                · simp only [hk, ne_eq, not_true_eq_false, ↓reduceIte, hx, ha, hv, Bool.not_true,
+                    Bool.false_eq_true, hs, hr] at h
+                  split at h <;> simp at h
+                · refine ⟨rt, e, s, ⟨by rw [hk], ?_, ha, hv, hs, ?_, ?_⟩⟩
+                  · simpa [refreshExpired] using hx
+                  · simpa [refreshReuse] using hr
+                  · intro rs hrs
+                    subst hrs
+                    by_cases hall : ∀ x ∈ rs, x ∈ rt.scopes
+                    · exact hall
+                    · exfalso
+                      simp [hk, hx, ha, hv, hs, hr, refreshScopesOk, hall] at h
+      · simp [hk] at h
+  · rintro ⟨rt, e, s, ht⟩
+    have hx : refreshExpired rt.exp (asSecs ct) = false := by
+      simp [refreshExpired]; exact ht.unexpired
+    have hr : refreshReuse rt.iat (asSecs s.issued) = false := by
+      simp [refreshReuse]; exact Nat.le_of_not_lt ht.notRotated
+    rw [ht.isRefresh]
+    unfold exchangeRefresh
+    simp only [ne_eq, not_true_eq_false, ↓reduceIte, hx, ht.account, ht.valid, ht.session, hr,
+      Bool.false_eq_true, Bool.not_true]
+    cases req with
+    | none =>
+      obtain ⟨w1, hg, _⟩ := generate_ok w c ct rt.scopes rt.parent rt.sid rt.acct rt.nonce e ht.account
+      exact ⟨_, _, hg⟩
+    | some rs =>
+      have hsub : refreshScopesOk (rs.all fun x => rt.scopes.contains x) = true := by
+        simpa [refreshScopesOk] using ht.narrow rs rfl
+      obtain ⟨w1, hg, _⟩ := generate_ok w c ct rs rt.parent rt.sid rt.acct rt.nonce e ht.account
+      simp only [hsub, ↓reduceIte]
+      exact ⟨_, _, hg⟩
+
+/-- **Second sentence, first half.** What a successful refresh hands out: scopes that are all among
+the presented token's, the same OAuth2 session, account and parent, under the same client's key. -/
+theorem exchange_refresh_grant {w w' : World} {c : TClient} {t : Tok} {req : Option (List Nat)} {ct : Nat}
+    {r : Resp} (h : exchangeRefresh w c t req ct = (w', .ok r)) :
+    ∃ rt, t = .refresh c.base.uuid rt ∧ (∀ x ∈ r.scopes, x ∈ rt.scopes) ∧
+      (∀ rs, req = some rs → r.scopes = rs) ∧ (req = none → r.scopes = rt.scopes) ∧
+      r.sid = rt.sid ∧ r.acct = rt.acct ∧ r.parent = rt.parent ∧
+      r.access = .access c.base.uuid ⟨r.scopes, rt.parent, rt.sid, accessExp ct, rt.acct, asSecs ct⟩ ∧
+      r.refresh = some (.refresh c.base.uuid
+        ⟨r.scopes, rt.parent, rt.sid, refreshExp (asSecs ct) c.refreshExpiry, rt.acct, asSecs ct, rt.nonce⟩) := by
+  obtain ⟨rt, e, s, ht⟩ := (exchange_refresh_ok_iff w c t req ct).mp ⟨w', r, h⟩
+  refine ⟨rt, ht.isRefresh, ?_⟩
+  have hx : refreshExpired rt.exp (asSecs ct) = false := by
+    simp [refreshExpired]; exact ht.unexpired
+  have hr : refreshReuse rt.iat (asSecs s.issued) = false := by
+    simp [refreshReuse]; exact Nat.le_of_not_lt ht.notRotated
+  rw [ht.isRefresh] at h
+  unfold exchangeRefresh at h
+  simp only [ne_eq, not_true_eq_false, ↓reduceIte, hx, ht.account, ht.valid, ht.session, hr,
+    Bool.false_eq_true, Bool.not_true] at h
+  cases req with
+  | none =>
+    obtain ⟨h1, h2, h3, h4, h5, h6, _⟩ := generate_result h
+    refine ⟨?_, ?_, ?_, h1, h2, h3, ?_, ?_⟩
+    · intro x hx'; rw [h4] at hx'; exact hx'
+    · intro rs hrs; cases hrs
+    · intro _; exact h4
+    · rw [h5, h4]
+    · rw [h6, h4]
+  | some rs =>
+    have hsub : refreshScopesOk (rs.all fun x => rt.scopes.contains x) = true := by
+      simpa [refreshScopesOk] using ht.narrow rs rfl
+    simp only [hsub, ↓reduceIte] at h
+    obtain ⟨h1, h2, h3, h4, h5, h6, _⟩ := generate_result h
+    refine ⟨?_, ?_, ?_, h1, h2, h3, ?_, ?_⟩
+    · intro x hx'; rw [h4] at hx'; exact ht.narrow rs rfl x hx'
+    · intro rs' hrs; cases hrs; exact h4
+    · intro hn; cases hn
+    · rw [h5, h4]
+    · rw [h6, h4]
+
+/-! ## 4. Revoked or expired means rejected — by exchange, introspection and userinfo -/
+
+/-- What the third sentence of the property names: the account is outside its validity window, or
+the token's OAuth2 session (on record) is revoked or expired, or its parent login session (on
+record) is revoked or expired.  "On record": the OAuth2 session is written by the transaction that
+issues the token; a token whose session is *not* on the entry is, as coded, honoured for the five
+minute replication grace window whatever the parent's state (C36's `orphan_…` theorems). -/
+def Dead (e : Entry) (sid : Nat) (parent : Option Nat) (ct : Nat) : Prop :=
+  withinWindow e ct = false ∨
+  ∃ o, lookup e.o2s sid = some o ∧
+    ((Revoked o ∨ ExpiredAt o ct) ∨
+     ∃ p u, parent = some p ∧ uatOf e p = some u ∧ (Revoked u ∨ ExpiredAt u ct))
+
+theorem not_live_of_dead {s : Sess} {ct : Nat} (h : Revoked s ∨ ExpiredAt s ct) : ¬ LiveAt s ct := by
+  intro hl
+  rcases h with h | h
+  · exact hl.1 h
+  · exact hl.2 h
+
+theorem dead_not_valid {e : Entry} {sid : Nat} {parent : Option Nat} {ct : Nat} (iat : Nat)
+    (h : Dead e sid parent ct) : acctValid e sid parent iat ct = false := by
+  cases hv : acctValid e sid parent iat ct with
+  | false => rfl
+  | true =>
+    obtain ⟨hw, ⟨o, ho, hlo, hp⟩ | ⟨hn, _⟩⟩ := (acctValid_true_iff e sid parent iat ct).mp hv
+    · rcases h with h | ⟨o', ho', hd | ⟨p, u, hpp, hu, hd⟩⟩
+      · rw [hw] at h; cases h
+      · rw [ho] at ho'; cases ho'
+        exact absurd hlo (not_live_of_dead hd)
+      · rcases hp p hpp with ⟨u', hu', hlu⟩ | ⟨hnone, _⟩
+        · rw [hu] at hu'; cases hu'
+          exact absurd hlu (not_live_of_dead hd)
+        · rw [hu] at hnone; cases hnone
+    · rcases h with h | ⟨o', ho', _⟩
+      · rw [hw] at h; cases h
+      · rw [hn] at ho'; cases ho'
+
+/-- **Third sentence of the property.** A token whose account is outside its validity window, or
+whose OAuth2 session or parent login session has been revoked or has expired, is rejected by the
+refresh grant (state untouched), is never reported active by introspection, and is refused by
+userinfo — whichever client presents it and whatever else the request says. -/
+theorem dead_rejected_everywhere (w : World) (e : Entry) (ct : Nat) :
+    (∀ c key (rt : RefreshTok) req, w.acct rt.acct = some e → Dead e rt.sid rt.parent ct →
+        ∃ err, exchangeRefresh w c (.refresh key rt) req ct = (w, .error err)) ∧
+    (∀ key (a : AccessTok), w.acct a.acct = some e → Dead e a.sid a.parent ct →
+        ∀ x, introspect w (.access key a) ct = .ok x → x = .inactive) ∧
+    (∀ key (a : ClientAccessTok), w.acct a.acct = some e → Dead e a.sid none ct →
+        ∀ x, introspect w (.clientAccess key a) ct = .ok x → x = .inactive) ∧
+    (∀ id key (a : AccessTok), w.acct a.acct = some e → Dead e a.sid a.parent ct →
+        ∃ err, userinfo w id (.access key a) ct = .error err) := by
+  refine ⟨?_, ?_, ?_, ?_⟩
+  · intro c key rt req ha hd
+    have hv := dead_not_valid rt.iat hd
+    unfold exchangeRefresh
+    by_cases hk : key = c.base.uuid
+    · by_cases hx : refreshExpired rt.exp (asSecs ct) = true
+      · exact ⟨refreshExpiredErr, by simp [hk, hx]⟩
+      · exact ⟨refreshInvalidErr, by simp [hk, hx, ha, hv]⟩
+    · exact ⟨refreshDecryptErr, by simp [hk]⟩
+  · intro key a ha hd x hx
+    have hv := dead_not_valid a.iat hd
+    unfold introspect at hx
+    cases hc : w.clientByKey key with
+    | none => simp [hc] at hx
+    | some c =>
+      by_cases he : introspectJwtExpired a.exp (asSecs ct) = true
+      · simp [hc, he] at hx; exact hx.symm
+      · simp [hc, he, ha, hv] at hx; exact hx.symm
+  · intro key a ha hd x hx
+    have hv := dead_not_valid a.iat hd
+    unfold introspect at hx
+    cases hc : w.clientByKey key with
+    | none => simp [hc] at hx
+    | some c =>
+      by_cases he : introspectJweExpired a.exp (asSecs ct) = true
+      · simp [hc, he] at hx; exact hx.symm
+      · simp [hc, he, ha, hv] at hx; exact hx.symm
+  · intro id key a ha hd
+    have hv := dead_not_valid a.iat hd
+    unfold userinfo
+    cases hc : w.client id with
+    | none => exact ⟨_, rfl⟩
+    | some c =>
+      by_cases hk : key = c.base.uuid
+      · by_cases he : userinfoExpired a.exp (asSecs ct) = true
+        · exact ⟨userinfoExpiredErr, by simp [hk, he]⟩
+        · exact ⟨userinfoInvalidErr, by simp [hk, he, ha, hv]⟩
+      · exact ⟨userinfoVerifyErr, by simp [hk]⟩
+
+/-- The same for the code grant: an account outside its window, or an authorising login session
+that is revoked or expired, and the code yields nothing (D12, and its expiry half). -/
+theorem dead_code_rejected (hash : Nat → Nat) (w : World) (c : TClient) (key : Nat) (cd : ExchangeCode)
+    (redirect : Nat) (verifier : Option Nat) (ct : Nat) (e : Entry)
+    (ha : w.acct cd.accountUuid = some e)
+    (hd : withinWindow e ct = false ∨ ParentDead e cd.sessionId ct) :
+    ∃ err, exchangeCode hash w c (.code key cd) redirect verifier ct = (w, .error err) := by
+  cases hr : exchangeCode hash w c (.code key cd) redirect verifier ct with
+  | mk w' x =>
+    cases x with
+    | error err =>
+      refine ⟨err, ?_⟩
+      -- every error path leaves the state alone
+      unfold exchangeCode at hr
+      simp only at hr
+      by_cases hk : key = c.base.uuid
+      · by_cases hx : codeExpired cd.expiry (asSecs ct) = true
+        · simp [hk, hx] at hr; rw [hr.1]
+        · cases hp : pkceCheck hash c cd verifier with
+          | some e' => simp [hk, hx, hp] at hr; rw [hr.1]
+          | none =>
+            by_cases hrd : redirectDiffers redirect cd.redirectUri = true
+            · simp [hk, hx, hp, hrd] at hr; rw [hr.1]
+            · rcases hd with hwin | hpd
+              · simp [hk, hx, hp, hrd, ha, hwin, codeOutsideWindow] at hr; rw [hr.1]
+              · by_cases hwn : codeOutsideWindow (withinWindow e ct) = true
+                · simp [hk, hx, hp, hrd, ha, hwn] at hr; rw [hr.1]
+                · have := (codeParentDeadOn_iff e cd.sessionId ct).mpr hpd
+                  simp [hk, hx, hp, hrd, ha, hwn, this] at hr; rw [hr.1]
+      · simp [hk] at hr; rw [hr.1]
+    | ok r =>
+      obtain ⟨cd', e', ht⟩ := (exchange_code_ok_iff hash w c (.code key cd) redirect verifier ct).mp ⟨w', r, hr⟩
+      have hcd : cd' = cd := by have := ht.isCode; injection this with _ h2; exact h2.symm
+      subst hcd
+      have hee : e' = e := by have := ht.account; rw [ha] at this; injection this with h; exact h.symm
+      subst hee
+      rcases hd with hwin | hpd
+      · rw [ht.window] at hwin; cases hwin
+      · exact absurd hpd ht.parentLive
+
+/-- Every token's own expiry: at or after `exp` (whole seconds) nothing is redeemable. -/
+theorem expired_token_rejected (hash : Nat → Nat) (w : World) (ct : Nat) :
+    (∀ c key (cd : ExchangeCode) u v, cd.expiry ≤ asSecs ct →
+        ∃ err, exchangeCode hash w c (.code key cd) u v ct = (w, .error err)) ∧
+    (∀ c key (rt : RefreshTok) req, rt.exp ≤ asSecs ct →
+        ∃ err, exchangeRefresh w c (.refresh key rt) req ct = (w, .error err)) ∧
+    (∀ key (a : AccessTok), a.exp ≤ asSecs ct →
+        ∀ x, introspect w (.access key a) ct = .ok x → x = .inactive) ∧
+    (∀ id key (a : AccessTok), a.exp ≤ asSecs ct → ∃ err, userinfo w id (.access key a) ct = .error err) := by
+  refine ⟨?_, ?_, ?_, ?_⟩
+  · intro c key cd u v h
+    unfold exchangeCode
+    by_cases hk : key = c.base.uuid
+    · exact ⟨codeExpiredErr, by simp [hk, codeExpired, h]⟩
+    · exact ⟨codeDecryptErr, by simp [hk]⟩
+  · intro c key rt req h
+    unfold exchangeRefresh
+    by_cases hk : key = c.base.uuid
+    · exact ⟨refreshExpiredErr, by simp [hk, refreshExpired, h]⟩
+    · exact ⟨refreshDecryptErr, by simp [hk]⟩
+  · intro key a h x hx
+    unfold introspect at hx
+    cases hc : w.clientByKey key with
+    | none => simp [hc] at hx
+    | some c => simp [hc, introspectJwtExpired, h] at hx; exact hx.symm
+  · intro id key a h
+    unfold userinfo
+    cases hc : w.client id with
+    | none => exact ⟨_, rfl⟩
+    | some c =>
+      by_cases hk : key = c.base.uuid
+      · exact ⟨userinfoExpiredErr, by simp [hk, userinfoExpired, h]⟩
+      · exact ⟨userinfoVerifyErr, by simp [hk]⟩
+
 end Kanidm.OAuth2.Token
